@@ -25,6 +25,10 @@ Judge(ev, enabled, fails, p) ==
   ELSE IF ev.outcome = "raise" THEN {p \o ".raises"}
   ELSE fails
 
+\* C08 says "an operation either does this or raises": raising is never a C08 violation
+JudgeR(ev, enabled, fails, p) ==
+  IF ~enabled \/ ev.outcome = "raise" THEN {} ELSE fails
+
 ---------------------------------------------------------------------------
 \* clauses evaluated on every event
 
@@ -69,13 +73,13 @@ AbTranspose(ev, pre) ==
       n == Rank(x)
       perm == IF Flag(ev.args, "axes_none") THEN Reversal(n) ELSE [i \in 1..Len(ev.args.axes) |-> ev.args.axes[i] + 1]
       en == IsPermOf(perm, n)
-  IN Judge(ev, en, LET r == Outs(ev, 1) IN
+  IN JudgeR(ev, en, LET r == Outs(ev, 1) IN
        F(Valid(r), "C08.transpose.result_valid") \cup
        (IF Valid(r) /\ AllExact(r) THEN WhySameDen(Den(r), TransposeDen(x, perm), "C08.transpose") ELSE {}),
        "C08.transpose")
 
 AbUnary(ev, pre, exp, p) ==
-  Judge(ev, TRUE, LET r == Outs(ev, 1) IN
+  JudgeR(ev, TRUE, LET r == Outs(ev, 1) IN
        F(IsArray(r) /\ Valid(r), p \o ".result_valid") \cup
        (IF IsArray(r) /\ Valid(r) /\ AllExact(r) THEN WhySameDen(Den(r), exp, p) ELSE {}), p)
 
@@ -83,7 +87,7 @@ AbSqueeze(ev, pre) ==
   LET x == Ins(ev, pre, 1)
       S == SqueezeAxes(x, ev.args)
       en == S \subseteq 1..Rank(x) /\ SqueezeEnabled(x, S)
-  IN Judge(ev, en, LET r == Outs(ev, 1) IN
+  IN JudgeR(ev, en, LET r == Outs(ev, 1) IN
        F(Valid(r), "C08.squeeze.result_valid") \cup
        (IF Valid(r) /\ AllExact(r) THEN WhySameDen(Den(r), SqueezeDen(x, S), "C08.squeeze") ELSE {}),
        "C08.squeeze")
@@ -94,7 +98,7 @@ AbExpand(ev, pre) ==
       c == IF Has(ev.args, "c") THEN ev.args.c ELSE Zero
       d == ExpandDual(x, p, ev.args)
       en == p \in 1..(Rank(x) + 1) /\ ValidCharge(x.sym, c)
-  IN Judge(ev, en, LET r == Outs(ev, 1) IN
+  IN JudgeR(ev, en, LET r == Outs(ev, 1) IN
        F(Valid(r), "C08.expand_dims.result_valid") \cup
        (IF Valid(r) /\ AllExact(r) THEN WhySameDen(Den(r), ExpandDen(x, p, c, d), "C08.expand_dims") ELSE {}),
        "C08.expand_dims")
@@ -149,7 +153,7 @@ AbScalarOp(ev, pre) ==
   IN CASE ev.op \in {"smul", "rsmul", "ismul"} -> AbUnary(ev, pre, ScaleDen(x, k), p)
        [] ev.op \in {"sdiv", "isdiv"} ->
             \* exported divisors divide every entry: r * k = x
-            Judge(ev, k # VZero, LET r == Outs(ev, 1) IN
+            JudgeR(ev, k # VZero, LET r == Outs(ev, 1) IN
                F(IsArray(r) /\ Valid(r), p \o ".result_valid") \cup
                (IF IsArray(r) /\ Valid(r) /\ AllExact(r) THEN WhySameDen(ScaleDen(r, k), Den(x), p) ELSE {}), p)
        [] OTHER -> {}
@@ -159,7 +163,7 @@ AbMulDiag(ev, pre) ==
       v == Ins(ev, pre, 2)
       ax == NormAx(ev.args.axis, Rank(x))
       en == IsVector(v) /\ MulDiagEnabled(x, v, ax)
-  IN Judge(ev, en, LET r == Outs(ev, 1) IN
+  IN JudgeR(ev, en, LET r == Outs(ev, 1) IN
        F(IsArray(r) /\ Valid(r), "C08.multiply_diagonal.result_valid") \cup
        (IF IsArray(r) /\ Valid(r) /\ AllExact(r)
         THEN WhySubDen(Den(r), MulDiagDen(x, v, ax), "C08.multiply_diagonal") ELSE {}),
@@ -177,8 +181,10 @@ AbToDense(ev, pre) ==
   LET x == Ins(ev, pre, 1)
       r == Outs(ev, 1)
   IN Judge(ev, x.blocks # <<>>,
-       F(IsDense(r) /\ r.shape = DenseShape(x), "C16.to_dense.shape")
-       \cup (IF IsDense(r) /\ r.exact /\ AllExact(x) THEN F(DenseNZ(r) = DenseElems(x), "C16.to_dense.value") ELSE {}),
+       IF Rank(x) = 0
+       THEN (IF IsScalar(r) /\ r.exact /\ AllExact(x) THEN F(r.v = ValAt(Elem(x), <<>>), "C16.to_dense.value") ELSE {})
+       ELSE F(IsDense(r) /\ r.shape = DenseShape(x), "C16.to_dense.shape")
+            \cup (IF IsDense(r) /\ r.exact /\ AllExact(x) THEN F(DenseNZ(r) = DenseElems(x), "C16.to_dense.value") ELSE {}),
        "C16.to_dense")
 
 
@@ -310,8 +316,10 @@ FeToDense(ev, pre) ==
   LET x == Ins(ev, pre, 1)
       r == Outs(ev, 1)
   IN Judge(ev, x.blocks # <<>>,
-       F(IsDense(r) /\ r.shape = DenseShape(x), "C09.to_dense.shape")
-       \cup (IF IsDense(r) /\ r.exact /\ AllExact(x) THEN F(DenseNZ(r) = DenseElems(x), "C09.to_dense.value") ELSE {}),
+       IF Rank(x) = 0
+       THEN (IF IsScalar(r) /\ r.exact /\ AllExact(x) THEN F(r.v = ValAt(Elem(x), <<>>), "C09.to_dense.value") ELSE {})
+       ELSE F(IsDense(r) /\ r.shape = DenseShape(x), "C09.to_dense.shape")
+            \cup (IF IsDense(r) /\ r.exact /\ AllExact(x) THEN F(DenseNZ(r) = DenseElems(x), "C09.to_dense.value") ELSE {}),
        "C09.to_dense")
 
 FermiFails(ev, pre) ==
@@ -416,7 +424,103 @@ PseudoFails(ev, pre) ==
             \* x : scalar, y : array;  x = sum |y|^2
             IF IsScalar(x) /\ x.exact /\ AllExact(y) THEN F(x.v = <<Norm2(Elem(y)), 0>>, c) ELSE {}
        [] ev.args.how = "true" -> F(x.t = "bool" /\ x.v = TRUE, c)
+       [] ev.args.how = "all_or_none" ->
+            \* args.present[i]: did the i-th call return (TRUE) or raise (FALSE)
+            F(Cardinality({ev.args.present[i] : i \in 1..Len(ev.args.present)}) <= 1, c)
+       [] ev.args.how = "bits" -> F(ev.args.bits_equal, c)
        [] OTHER -> {"X00.unknown_relation"}
+
+---------------------------------------------------------------------------
+\* block vectors (C08): arithmetic and elementwise functions act entry by entry
+VMap(v, f(_)) == {[k |-> e.k, v |-> f(e.v)] : e \in VecElem(v)}
+IsReal(v) == \A e \in VecElem(v) : e.v[2] = 0
+ISqrt(n) == CHOOSE r \in 0..n : r * r = n
+IsSquare(n) == n >= 0 /\ \E r \in 0..n : r * r = n
+VecJudge(ev, exp, p) ==
+  IF ev.outcome = "raise" THEN {}
+  ELSE LET r == Outs(ev, 1) IN
+       IF ~IsVector(r) THEN {p \o ".type"}
+       ELSE IF AllExact(r) THEN F(VecElem(r) = exp, p \o ".value") ELSE {}
+VecBinary(ev, pre) ==
+  LET a == Ins(ev, pre, 1)
+      b == Ins(ev, pre, 2)
+      Ea == VecElem(a)
+      Eb == VecElem(b)
+      p == "C08.vector." \o ev.op
+      same == IsVector(b) /\ Keys(Ea) = Keys(Eb)
+  IN IF ~same \/ ~AllExact(a) \/ ~AllExact(b) THEN {}
+     ELSE CASE ev.op \in {"add", "iadd"} -> VecJudge(ev, {[k |-> e.k, v |-> VAdd(e.v, ValAt(Eb, e.k))] : e \in Ea}, p)
+            [] ev.op \in {"sub", "isub"} -> VecJudge(ev, {[k |-> e.k, v |-> VSub(e.v, ValAt(Eb, e.k))] : e \in Ea}, p)
+            [] ev.op \in {"mul", "imul"} -> VecJudge(ev, {[k |-> e.k, v |-> VMul(e.v, ValAt(Eb, e.k))] : e \in Ea}, p)
+            [] ev.op \in {"truediv", "itruediv"} ->
+                 \* r * b = a  (exported data divide exactly)
+                 IF ev.outcome = "raise" THEN {}
+                 ELSE LET r == Outs(ev, 1) IN
+                      IF IsVector(r) /\ AllExact(r)
+                      THEN F({[k |-> e.k, v |-> VMul(e.v, ValAt(Eb, e.k))] : e \in VecElem(r)} = Ea, p \o ".value") ELSE {}
+            [] OTHER -> {}
+VecScalar(ev, pre) ==
+  LET x == Ins(ev, pre, 1)
+      k == ev.args.k
+      p == "C08.vector." \o ev.op
+  IN IF ~AllExact(x) THEN {}
+     ELSE CASE ev.op \in {"smul", "rsmul", "ismul"} -> VecJudge(ev, VMap(x, LAMBDA v : VMul(v, k)), p)
+            [] ev.op \in {"sadd", "rsadd"} -> VecJudge(ev, VMap(x, LAMBDA v : VAdd(v, k)), p)
+            [] ev.op = "ssub" -> VecJudge(ev, VMap(x, LAMBDA v : VSub(v, k)), p)
+            [] ev.op = "rssub" -> VecJudge(ev, VMap(x, LAMBDA v : VSub(k, v)), p)
+            [] ev.op = "spow" -> IF k = <<2, 0>> THEN VecJudge(ev, VMap(x, LAMBDA v : VMul(v, v)), p) ELSE {}
+            [] ev.op \in {"sdiv", "isdiv"} ->
+                 IF ev.outcome = "raise" THEN {}
+                 ELSE LET r == Outs(ev, 1) IN
+                      IF IsVector(r) /\ AllExact(r) THEN F(VMap(r, LAMBDA v : VMul(v, k)) = VecElem(x), p \o ".value") ELSE {}
+            [] OTHER -> {}
+VecUnary(ev, pre) ==
+  LET x == Ins(ev, pre, 1)
+      p == "C08.vector." \o ev.op
+      r == Outs(ev, 1)
+  IN IF ~AllExact(x) THEN {}
+     ELSE CASE ev.op = "neg" -> VecJudge(ev, VMap(x, VNeg), p)
+            [] ev.op = "copy" -> VecJudge(ev, VecElem(x), p)
+            [] ev.op = "abs" -> IF IsReal(x) THEN VecJudge(ev, VMap(x, LAMBDA v : <<IF v[1] < 0 THEN 0 - v[1] ELSE v[1], 0>>), p) ELSE {}
+            [] ev.op = "sqrt" -> IF IsReal(x) /\ \A e \in VecElem(x) : IsSquare(e.v[1])
+                                 THEN VecJudge(ev, VMap(x, LAMBDA v : <<ISqrt(v[1]), 0>>), p) ELSE {}
+            [] ev.op = "sum" -> IF ev.outcome = "ok" /\ IsScalar(r) /\ r.exact THEN F(r.v = SumOf(VecElem(x)), p \o ".value") ELSE {}
+            [] ev.op = "max" -> IF ev.outcome = "ok" /\ IsScalar(r) /\ r.exact /\ IsReal(x) /\ VecElem(x) # {}
+                                THEN F(r.v = <<Max({e.v[1] : e \in VecElem(x)}), 0>>, p \o ".value") ELSE {}
+            [] ev.op = "min" -> IF ev.outcome = "ok" /\ IsScalar(r) /\ r.exact /\ IsReal(x) /\ VecElem(x) # {}
+                                THEN F(r.v = <<Min({e.v[1] : e \in VecElem(x)}), 0>>, p \o ".value") ELSE {}
+            [] ev.op = "norm_sq" -> IF ev.outcome = "ok" /\ IsScalar(r) /\ r.exact THEN F(r.v = <<Norm2(VecElem(x)), 0>>, p \o ".value") ELSE {}
+            [] ev.op = "to_dense" ->
+                 \* concatenation of the blocks in ascending order of their keys
+                 IF ev.outcome = "ok" /\ IsDense(r) /\ r.exact
+                 THEN LET off(c) == SumSeqInt([i \in 1..Len(x.blocks) |-> IF ChargeLT(x.blocks[i].c, c) THEN x.blocks[i].shape[1] ELSE 0])
+                      IN F({[k |-> <<off(e.k[1]) + e.k[2]>>, v |-> e.v] : e \in NZ(VecElem(x))} = DenseNZ(r), p \o ".value")
+                 ELSE {}
+            [] OTHER -> {}
+VectorFails(ev, pre) ==
+  CASE ev.op \in {"add", "sub", "mul", "truediv", "iadd", "isub", "imul", "itruediv"} -> VecBinary(ev, pre)
+    [] ev.op \in {"smul", "rsmul", "ismul", "sadd", "rsadd", "ssub", "rssub", "spow", "sdiv", "isdiv"} -> VecScalar(ev, pre)
+    [] OTHER -> VecUnary(ev, pre)
+
+\* zero-preserving elementwise functions and reductions of abelian arrays
+AbElementwise(ev, pre) ==
+  LET x == Ins(ev, pre, 1)
+      E == Elem(x)
+      real == \A e \in E : e.v[2] = 0
+      p == "C08." \o ev.op
+      r == Outs(ev, 1)
+  IN IF ev.outcome = "raise" \/ ~AllExact(x) THEN {}
+     ELSE CASE ev.op = "abs" ->
+                 IF real /\ IsArray(r) /\ Valid(r) /\ AllExact(r)
+                 THEN WhySameDen(Den(r), [E |-> {[k |-> e.k, v |-> <<IF e.v[1] < 0 THEN 0 - e.v[1] ELSE e.v[1], 0>>] : e \in E},
+                                          ix |-> Den(x).ix, charge |-> x.charge], p) ELSE {}
+            [] ev.op = "sqrt" ->
+                 IF real /\ (\A e \in E : IsSquare(e.v[1])) /\ IsArray(r) /\ Valid(r) /\ AllExact(r)
+                 THEN WhySameDen(Den(r), [E |-> {[k |-> e.k, v |-> <<ISqrt(e.v[1]), 0>>] : e \in E},
+                                          ix |-> Den(x).ix, charge |-> x.charge], p) ELSE {}
+            [] ev.op = "norm_sq" -> IF IsScalar(r) /\ r.exact THEN F(r.v = <<Norm2(E), 0>>, p \o ".value") ELSE {}
+            [] OTHER -> {}
+
 
 AbelianFails(ev, pre) ==
   CASE ev.op = "transpose" -> AbTranspose(ev, pre)
@@ -436,7 +540,9 @@ AbelianFails(ev, pre) ==
     [] ev.op = "multiply_diagonal" -> AbMulDiag(ev, pre)
     [] ev.op \in {"sum", "norm"} -> AbReduce(ev, pre)
     [] ev.op = "to_dense" -> AbToDense(ev, pre)
+    [] ev.op \in {"abs", "sqrt", "norm_sq"} -> AbElementwise(ev, pre)
     [] OTHER -> {}
+
 
 ---------------------------------------------------------------------------
 OpFails(ev, pre) ==
@@ -448,6 +554,7 @@ OpFails(ev, pre) ==
   ELSE LET x == Ins(ev, pre, 1) IN
        IF IsArray(x) /\ ~IsFermi(x) THEN AbelianFails(ev, pre)
        ELSE IF IsArray(x) /\ IsFermi(x) THEN FermiFails(ev, pre)
+       ELSE IF IsVector(x) THEN VectorFails(ev, pre)
        ELSE {}
 
 EventFails(ev, pre) ==
